@@ -34,6 +34,7 @@ type Interp struct {
 	maxDepth int
 	hook     *workCollector
 	dispatchSw *ast.SwitchStmt
+	appendHook func(st *State, call *ast.CallExpr, args []Val)
 	scratch  map[string]bool // []byte receiver fields used as truncate-then-append scratch buffers
 	constCache map[ast.Expr]Val
 	tableID  map[string]int
